@@ -642,8 +642,16 @@ def run_history(cfg, script=(), max_subset=None, max_bg=None):
         import tempfile
         groups = reconf_groups(cfg)
         grouped = {k for members in groups.values() for k in members}
-        conf = {"nodes": {ids[k]: {"priority": rc["prio"][k], "is_sequential": rc["seq"][k]} for k in range(cfg["n"])
-                          if rc["named"][k] and k + 1 not in grouped}}
+        keys = rc.get("keys") or ["both"] * cfg["n"]
+
+        def entry(k):
+            e = {}
+            if keys[k] in ("both", "prio"):
+                e["priority"] = rc["prio"][k]
+            if keys[k] in ("both", "seq"):
+                e["is_sequential"] = rc["seq"][k]
+            return e
+        conf = {"nodes": {ids[k]: entry(k) for k in range(cfg["n"]) if rc["named"][k] and k + 1 not in grouped}}
         for t, members in groups.items():       # one entry for all the nodes that carry the tag
             conf["nodes"][t] = {"priority": rc["prio"][members[0] - 1], "is_sequential": rc["seq"][members[0] - 1]}
         if rc.get("mc"):
